@@ -31,8 +31,12 @@ pub fn plans(id: &str) -> Vec<Plan> {
             Plan { check: Box::new(pd::C01 { focus: pd::Focus::Strictness, id: "C07" }), quick: 3_000, thorough: 150_000 },
         ],
         "C08" => vec![Plan { check: Box::new(pm::C08), quick: 8_000, thorough: 400_000 }],
+        "C09" => vec![Plan { check: Box::new(crate::props_map::C09), quick: 20_000, thorough: 1_000_000 }],
+        "C10" => vec![Plan { check: Box::new(crate::props_map::C10), quick: 10_000, thorough: 500_000 }],
+        "C11" => vec![Plan { check: Box::new(crate::props_c11::C11), quick: 3_000, thorough: 100_000 }],
         "C12" => vec![Plan { check: Box::new(pm::C12), quick: 30_000, thorough: 1_000_000 }],
         "C13" => vec![Plan { check: Box::new(pm::C13), quick: 40_000, thorough: 2_000_000 }],
+        "C14" => vec![Plan { check: Box::new(crate::props_c14::C14), quick: 20_000, thorough: 1_000_000 }],
         "C15" => vec![Plan { check: Box::new(pm::C15), quick: 20_000, thorough: 1_000_000 }],
         "C16" => vec![Plan { check: Box::new(pm::C16), quick: 3_000, thorough: 100_000 }],
         _ => vec![],
